@@ -92,6 +92,19 @@ def run(pid, tier, seed, cfg):
         detail = '\n'.join(p['detail'] for p in parts if p['detail'])[:8000]
         violations.append(Violation(pid, '+'.join(failed) + ('[' + ';'.join(kinds)[:120] + ']' if kinds else ''), detail, w,
                                     key='+'.join(failed), replay_kind='args'))
+    # fixed native probes: inputs of recorded findings (known_findings.txt decides whether they are KNOWN-FINDING lines
+    # or violations); a probe that passes prints nothing
+    probe_info = []
+    if cfg.get('probes'):
+        exe = core.build_replay()
+        for pr in cfg['probes']:
+            p = core.sh([exe] + pr['args'], timeout=600)
+            failed_probe = p.returncode == 1 and 'MISMATCH' in p.stdout
+            probe_info.append({'key': pr['key'], 'args': ' '.join(pr['args']), 'fails': failed_probe})
+            if p.returncode not in (0, 1):
+                raise Undecided('probe %s did not run: %s' % (pr['key'], (p.stderr or p.stdout)[-300:]))
+            if failed_probe:
+                violations.append(Violation(pid, pr['key'], p.stdout[-1500:], {'replay_args': pr['args'], 'expected': pr['what']}, key=pr['key'], replay_kind='args'))
     proved = [p for p in parts if not p.get('is_bounded')]
     bounded = [p for p in parts if p.get('is_bounded')]
     cov = {
@@ -107,6 +120,7 @@ def run(pid, tier, seed, cfg):
         'not_decided': cfg.get('not_decided', []),
         'samples': cfg['samples'],
         'failing_input_search': info,
+        'known_finding_probes': probe_info,
         'exhaustive': False,
     }
     return core.finish(pid, tier, seed, t0, violations, cov, cfg['assumptions'])
